@@ -45,8 +45,18 @@ function OBS() {
     for (var t = 0; t < OBJS.length; t++) { row.push(Object.prototype.isPrototypeOf.call(OBJS[t], o)); }
     out.push(row);
   }
+  // the constructors themselves: each has a prototype object of its own whose constructor is that function
+  var crow = [];
+  for (var c1 = 0; c1 < CTORS.length; c1++) {
+    var P = CTORS[c1].prototype;
+    var same = [];
+    for (var c2 = 0; c2 < CTORS.length; c2++) { same.push(P === CTORS[c2].prototype); }
+    crow.push([typeof P, P !== null && typeof P === 'object' ? P.constructor === CTORS[c1] : 'n/a', P !== null && typeof P === 'object' ? Object.keys(P).filter(function (kq) { return kq !== 'constructor'; }) : [], OBJS.indexOf(P), same]);
+  }
+  out.push(crow);
   log(out);
 }
+function MKCTOR(tag) { return function KF(v) { this.a = v; this.tag = tag; }; }
 """ % json.dumps(KEYS)
 
 
@@ -102,10 +112,16 @@ class HG:
             if kind < 0.85 and self.nctor and "ctor" not in self.avoid:
                 return "OBJS.push(new CTORS[%d](%d));" % (self.r.randrange(self.nctor), self.r.randint(1, 9))
             return "OBJS.push({get acc() { return 'G' + SV(this.a); }, set acc(v) { this.sink = v; }, m: function () { return this.b; }});"
-        if r < 0.30 and self.nctor < 3 and "ctor" not in self.avoid:
+        if r < 0.30 and self.nctor < 4 and "ctor" not in self.avoid:
             self.nctor += 1
             i = self.nctor - 1
             k = self.r.random()
+            if k < 0.25 and "ctor-factory" not in self.avoid:
+                # constructors that are closures of ONE function definition (a factory, a loop): still one prototype object each
+                if self.r.random() < 0.5:
+                    return "CTORS.push(MKCTOR(%d)); CTORS[%d].prototype.m = function () { return 'mk%d' + this.a; };" % (i, i, i)
+                self.nctor += 1
+                return ("for (var fi_ = 0; fi_ < 2; fi_++) { CTORS.push(function KL(v) { this.zz = v; }); } CTORS[%d].prototype.k1 = 'loop%d';" % (i, i))
             if k < 0.4 or self.n == 0:
                 return "CTORS.push(function K%d(v) { this.a = v; }); CTORS[%d].prototype.m = function () { return 'm' + this.a; };" % (i, i)
             if k < 0.7:
